@@ -32,6 +32,9 @@ Theorems, all over the editor state-machine model (`Model/Editor.lean`), for EVE
   option), `toggle_preserves_buffer`, `setOptions_preserves_buffer`.
 * Chinese mode, the branches that share the tables: `chinese_shifted_key`, `chinese_shifted_letter`
   (same behaviour as English mode), `chinese_shifted_symbol` (special symbols are inserted into the buffer).
+* linked (section at the end): `buffer_bounded_along` — `EditorInv` (C01) + "buffer within the threshold in
+  `Entering`" is an invariant of key histories — and the whole-key theorems restated without a premise on the
+  buffer length (`capslock_toggles_lang_linked`, `shiftspace_toggles_form_linked`, `eng_key_inserts_linked`).
 * Outside the statement but recorded: `numlock_key_verbatim` (keypad keys ignore the character form),
   `eng_full_unprintable_bell` (F01 as repaired).
 -/
@@ -659,6 +662,12 @@ theorem bounded_after_key_linked (hE : C01.EnvOK env G) {e e' : Editor D L} (hi 
     {ev : KeyEvent} {b : KB} (h : e.processKey env ev = .ok (e', b)) (he : e'.state = .entering)
     (hb : b = .absorb ∨ b = .commit) : e'.shared.com.len ≤ e'.shared.options.autoCommitThreshold :=
   Link.bounded_after_key_linked hE hi h he hb
+
+/-- **C05's `tryAutoCommit_total` without the tiling premise**: at every shared state satisfying C01's invariant
+    the auto-commit returns (no underflow, no over-removal, no panic of the engine) and re-establishes the bound -/
+theorem tryAutoCommit_total_linked (hE : C01.EnvOK env G) {sh : Shared D L} (h : C01.ShInv env G sh) :
+    ∃ sh2, Shared.tryAutoCommit env sh = .ok sh2 ∧ sh2.com.len ≤ sh2.options.autoCommitThreshold :=
+  Link.tryAutoCommit_total_linked hE h
 
 /-- no key changes `auto_commit_threshold` (only the two mode toggles change an option at all) -/
 theorem threshold_kept {e e' : Editor D L} {ev : KeyEvent} {b : KB} (h : e.processKey env ev = .ok (e', b)) :
